@@ -153,3 +153,37 @@ check('C12', 'E4', 'fault_enumeration',
       'engine.io exception containment trusted; offender connected to "/" '
       'only; its own connection may become unusable.',
       'DESIGN.md 6/C12')
+
+check('C08', 'E1', 'model_checking',
+      'explicit-state BFS over client connection histories with a client '
+      'ledger',
+      'All histories of connect() (namespace subsets and orders, auth value '
+      'or callable, wait yes/no, every assignment of {accept, refuse, '
+      'silence} to the requested namespaces in every arrival order), server '
+      'DISCONNECT per namespace, duplicate CONNECT, emit with outstanding '
+      'callback, half-received binary packet, disconnect(), transport loss, '
+      'server CLOSE and up to 2-3 successive connections are explored to '
+      'closure on Client and AsyncClient (function handlers and class-based '
+      'namespaces); CONNECT packets, connect() result, connect/connect_error/'
+      'disconnect handler counts, namespace/sid/connected mirror, '
+      'BadNamespaceError-without-sending and absence of residue are checked '
+      'against the ledger at every step.',
+      'real engineio client with the transport cut; reconnection disabled '
+      '(C10); server DISCONNECT for unconnected namespaces excluded.',
+      'DESIGN.md 6/C08')
+
+check('C09', 'E1+E2', 'model_checking',
+      'explicit-state BFS with an ack ledger; exhaustive asyncio schedule '
+      'exploration of concurrent message tasks',
+      'All histories of client emit-with-callback / call() (answered or '
+      'not) / server ACK with ids from every outstanding or used id of both '
+      'namespaces plus 0 and max+1 are explored to closure on Client, '
+      'AsyncClient and AsyncClient with coroutine handlers/callbacks; at '
+      'every state every server event (2 namespaces x handled/unhandled x '
+      'ids {None,0,1,7} x 13 return shapes) is delivered and handler log + '
+      'ACK frame compared with the ledger. For AsyncClient, duplicate ACKs, '
+      'ACKs on two namespaces, two events and ACK-vs-loss are run as '
+      'concurrent message tasks under every interleaving.',
+      'emit counts capped (3-4 on "/", 1 on "/a"); threaded client message '
+      'tasks run to completion in arrival order.',
+      'DESIGN.md 6/C09')
